@@ -108,6 +108,31 @@ static void computeRowsCase(Rng &rng, CaseResult &r) {
   o.obstructionProb = 0.5;
   if (rng.chance(0.2)) o.scale = (int)rng.pick(std::vector<int>{100, 10000});
   Circuit c = genCircuit(rng, o);
+  if (rng.chance(0.3)) {
+    // arbitrary pairwise disjoint rows: several x-segments per band that start at the same y but have independent
+    // heights and orientations, listed in random order (computeRows makes no assumption on the rows)
+    Rectangle a0 = c.computePlacementArea();
+    int unit = std::max(1, c.rows_[0].height());
+    std::vector<Row> rows;
+    int y = a0.minY;
+    int bands = (int)rng.range(1, 4);
+    for (int b = 0; b < bands; ++b) {
+      int x = a0.minX, maxH = unit;
+      int segs = (int)rng.range(1, 4);
+      for (int k = 0; k < segs; ++k) {
+        int w = std::max(1, (int)rng.range(1, std::max(2, a0.width() / 3)));
+        int h = unit * (int)rng.range(1, 4);
+        if (rng.chance(0.3)) h = std::max(1, h - (int)rng.range(0, unit - 1));
+        x += (int)rng.range(0, 2) * o.scale;
+        rows.emplace_back(x, x + w, y, y + h, ALL8[rng.range(0, 7)]);
+        x += w;
+        maxH = std::max(maxH, h);
+      }
+      y += maxH + (int)rng.range(0, 1) * unit;
+    }
+    for (int i = (int)rows.size() - 1; i > 0; --i) std::swap(rows[i], rows[rng.range(0, i)]);
+    c.setRows(rows);
+  }
   // movable cells flagged as obstruction or not must be ignored either way; fixed cells with any orientation
   for (int i = 0; i < c.nbCells(); ++i) if (!c.cellIsFixed_[i]) c.cellIsObstruction_[i] = rng.chance(0.5);
   std::vector<Rectangle> extra;
